@@ -298,7 +298,7 @@ func (p *Pipeline) writeBatch(b *batch) error {
 		byStyle[o.Prog.Style] = append(byStyle[o.Prog.Style], o)
 	}
 	var reg strings.Builder
-	fmt.Fprintf(&reg, "package %s\n\nvar Reg = map[string]func(){\n", b.name)
+	fmt.Fprintf(&reg, "package %s\n\n// SharedG is package-level state declared in a file the compiler does not process.\nvar SharedG int\n\nvar Reg = map[string]func(){\n", b.name)
 	for _, o := range b.progs {
 		fmt.Fprintf(&reg, "\t%q: %sE,\n", o.Prog.Name, o.Prog.Prefix())
 	}
@@ -326,7 +326,7 @@ func (p *Pipeline) writeBatch(b *batch) error {
 		fmt.Fprintf(&rf, "// ---- %s\n%s\n", o.Prog.Name, o.RefSource)
 	}
 	var regRef strings.Builder
-	fmt.Fprintf(&regRef, "package %s\n\nvar Reg = map[string]func(){\n", b.name)
+	fmt.Fprintf(&regRef, "package %s\n\nvar SharedG int\n\nvar Reg = map[string]func(){\n", b.name)
 	for _, o := range b.progs {
 		if !o.Prog.NoRef && !o.Prog.Native {
 			fmt.Fprintf(&regRef, "\t%q: %sE,\n", o.Prog.Name, o.Prog.Prefix())
